@@ -68,8 +68,8 @@ class World:
         pf = op.get('probe_fault')
         self.host.probe_calls = 0
         self.model.probe_calls = 0
-        self.host.probe_faults = {int(pf): 'raise'} if pf else {}
-        self.model.probe_faults = {int(pf): 'raise'} if pf else {}
+        self.host.probe_faults = {int(pf): op.get('probe_fault_kind', 'raise')} if pf else {}
+        self.model.probe_faults = {int(pf): op.get('probe_fault_kind', 'raise')} if pf else {}
         names = self.names if names is None else names
         ast = None
         if op.get('ast_names'):
